@@ -29,6 +29,41 @@ def run(ctx):
     # every parser reads its route through utils.pathsplit
     from .c20 import pathsplit
     pathsplit(ctx, "R9")
+    totality_table(ctx, "R10")
+
+
+# strings the standard parser refuses (unbalanced bracket in the authority) or that have no authority at all, and strings
+# that merely look like a platform url next to such an authority
+UNPARSEABLE = ["http://[bad/x", "[", "//[", "https://[www.youtube.com/watch?v=abcdefghijk", "https://www.youtube.com]/watch?v=abcdefghijk", "http://[docs.google.com/document/d/x/edit", "https://[t.me/s/x",
+               "https://[www.facebook.com/l.php?u=x", "", " ", "http://", "://", "http://a.com:x/y"]
+
+
+def totality_table(ctx, rule):
+    ctx.rule(rule, "model table (strings the parser refuses): every public parse_* / extract_* / is_* / has_* / normalize_* / convert_* function of the six platform modules that takes one required argument, interpreted on strings with an unbalanced bracket in the authority, no authority, or nothing at all, returns (None / False / the string / a record) instead of raising; a convert_* function raises its documented TypeError only")
+    from . import tables as TB
+    repo = ctx.repo
+    n = 0
+    for modname in MODULES:
+        mod = repo.mod(modname)
+        for fn in public_functions(mod):
+            if fn.name.startswith("_"):
+                continue
+            required = [a for a in fn.args.args[:len(fn.args.args) - len(fn.args.defaults)]]
+            if len(required) != 1 or fn.args.vararg is not None:
+                continue
+            ctx.fn("ural.%s.%s" % (modname, fn.name))
+            for text in UNPARSEABLE:
+                try:
+                    got = TB.call(repo, modname, fn.name, text)
+                except Unknown as e:
+                    ctx.undecided(rule, "%s.%s(%r): %s" % (modname, fn.name, text, e))
+                    continue
+                n += 1
+                raises = isinstance(got, str) and got.startswith("raises ")
+                ok = not raises or (fn.name.startswith("convert_") and got == "raises TypeError")
+                ctx.ob(rule, "%s.%s/%r" % (modname, fn.name, text), ok, "%s.%s(%r) %s: a string that is not a url of the platform must give None / False%s" % (modname, fn.name, text, got, " (or the documented TypeError)" if fn.name.startswith("convert_") else ""),
+                       mod.site(fn), witness=text, sample="%s(%r) -> %r" % (fn.name, text, got) if text == "http://[bad/x" and fn.name.startswith("parse_") else None)
+    ctx.require_instances(rule, n, 30 * len(UNPARSEABLE) - 40, "(function, string) cells")
 
 
 def public_functions(mod):
